@@ -16,7 +16,7 @@ theorem fsB_ne_leaves {bs : List FieldSpec} (h : bs ≠ []) : (leaves bs).isEmpt
   | cons _ _ => rfl
 
 /-- `query($id: ID!) { node(id: $id) { ... on T { <B's fields> } } }` is valid for `B`'s schema -/
-theorem validFor_lookup (h : Fam c A B T q fs) (hs : SvcFam c A B T q fs SA SB) (hB : Flat.fsB fs ≠ [])
+theorem validFor_lookup (h : FamT c A B T q fs) (hs : SvcB T fs SB) (hB : Flat.fsB fs ≠ [])
     (vars : List (String × J)) :
     ValidFor SB (rqOf c (stepB B T q (Flat.fsB fs)) vars) = true := by
   obtain ⟨QB, hQB, hkQ⟩ := kindOf_some hs.kQB
@@ -86,7 +86,7 @@ theorem occSels_leaves (S : Schema) (T n : String) : ∀ (xs : List FieldSpec),
     simp only [beq_self_eq_true, Bool.true_and, occSels, Nat.add_zero, namesOf, List.map_cons, List.count_cons]
     omega
 
-theorem T_ne_Query (h : Fam c A B T q fs) : ("Query" == T) = false := by
+theorem T_ne_Query (h : FamT c A B T q fs) : ("Query" == T) = false := by
   have := h.hTroot
   simp only [beq_eq_false_iff_ne, ne_eq]
   intro e; subst e; simp [isRootName] at this
@@ -104,13 +104,13 @@ theorem occOn_root (h : Fam c A B T q fs) (hs : SvcFam c A B T q fs SA SB) (ty :
   have hftn : fieldTypeName SA "Query" q = T := by simp [fieldTypeName, hQA, hfq, hqT]
   unfold occOn
   simp only [rqOf, header_root, h.hkind, rootOf, hs.rootA, Step.sels]
-  simp only [occSels, rootSel, occSel, hftn, idField, occSels_leaves, T_ne_Query h, Bool.false_and, Bool.false_eq_true, ↓reduceIte, hid, Bool.and_false, occSels, Nat.zero_add,
+  simp only [occSels, rootSel, occSel, hftn, idField, occSels_leaves, T_ne_Query h.toFamT, Bool.false_and, Bool.false_eq_true, ↓reduceIte, hid, Bool.and_false, occSels, Nat.zero_add,
     Nat.add_zero]
   rw [Flat.fsA, count_names_filter fs h.hnd _ f hf]
   cases f.2.2 <;> rfl
 
 /-- the follow-up lookup at `B` selects exactly `B`'s share of the client's fields, each once -/
-theorem occOn_lookup (h : Fam c A B T q fs) (hs : SvcFam c A B T q fs SA SB) (vars : List (String × J))
+theorem occOn_lookup (h : FamT c A B T q fs) (hs : SvcB T fs SB) (vars : List (String × J))
     (f : FieldSpec) (hf : f ∈ fs) :
     occOn SB T f.1 (rqOf c (stepB B T q (Flat.fsB fs)) vars) = if f.2.2 then 1 else 0 := by
   obtain ⟨QB, hQB, -⟩ := kindOf_some hs.kQB
